@@ -465,3 +465,37 @@ def run(C, R):
                 R.fail('C11.R7', [fn['path'], str(v), 'payload-not-returned'],
                        'TrySendError::into_inner() returns %s for %s' % (fmt_val(path.ret), v),
                        '%s:%s' % (fn['file'], fn['line']))
+        # R8: the error variant tells the truth about the flag: Closed only on a path that saw is_closed == true,
+        # Full / Empty only on a path that saw it false
+        n8 = 0
+        st = 'channel::mpmc::ChannelState'
+        for m in entry_methods(F, CG, st):
+            for path in E.run(m['path']):
+                if path.exit != 'return':
+                    continue
+                errs = []
+                _find_err(path.ret, errs)
+                for v in errs:
+                    n8 += 1
+                    ff = flag_fact(E, path, 'is_closed')
+                    want = 1 if v[2] == 'Closed' else 0
+                    if ff == want:
+                        R.ok('C11.R8', '%s|%s::%s under is_closed == %s' % (m['path'], v[1].split('::')[-1], v[2], bool(want)))
+                    else:
+                        R.fail('C11.R8', [m['path'], v[1].split('::')[-1], v[2], 'error-variant-contradicts-flag'],
+                               '%s returns %s::%s on a path with is_closed %s' % (
+                                   m['path'], v[1].split('::')[-1], v[2],
+                                   'unknown' if ff is None else ('true' if ff else 'false')),
+                               '%s:%s' % (m['file'], m['line']), {'trace': trace_summary(path)})
+        R.floor('C11.R8 error-returns[%s]' % cfg, n8, 4)
+
+
+def _find_err(v, out, depth=0):
+    if not isinstance(v, tuple) or depth > 8:
+        return
+    if v and v[0] == 'agg' and v[1] in ('channel::error::TrySendError', 'channel::error::TryReceiveError'):
+        out.append(v)
+        return
+    for x in v:
+        if isinstance(x, tuple):
+            _find_err(x, out, depth + 1)
